@@ -239,8 +239,9 @@ def monitorC13 (script : List Cmd) (iters : List Iter) : Option String :=
         | _ => none).foldl min (10 ^ 18)
       let bad := (List.range itArr.size).filter fun j =>
         j ≥ k0 && j < laterStart && (itArr[j]?.map fun it => it.d == d && askedIn it ty [12]).getD false
-      -- a query in the iteration that starts the search, or one second later and doubling,
-      -- is a schedule query; later ones are cache refreshes (known finding D23)
+      -- a query in the iteration that starts the search is a schedule query; later ones are
+      -- cache refreshes (was the known finding D23, repaired: both are failing clauses;
+      -- `Props.C13.no_ptr_query_while_cache_only`)
       if bad.contains k0 then some s!"cache-only-browse-sends-query ty={hexOfBytes ty}"
       else if !bad.isEmpty then some s!"cache-only-browse-refresh-query ty={hexOfBytes ty}"
       else none
